@@ -423,14 +423,16 @@ Fixpoint sem_expr (fuel : nat) (s : sstate) (e : jexpr) {struct fuel} : sres (jv
     | JUn UNeg _ x =>
       sdo a <- sem_expr f s x; let '(v, s1) := a in
       match v with JN z => sdo r <- num (- z); SOk (r, s1) | _ => SOff end
+    (* the unevaluated operand / branch must be inside the domain too (the engine evaluates it eagerly;
+       without side effects and errors that is unobservable): it is evaluated for the domain check only *)
     | JBin BAnd l r =>
       sdo a <- sem_expr f s l; let '(v, s1) := a in
       let '(b, s2) := to_boolean s1 v in
-      if b then sem_expr f s2 r else SOk (v, s2)
+      if b then sem_expr f s2 r else (sdo _ <- sem_expr f s2 r; SOk (v, s2))
     | JBin BOr l r =>
       sdo a <- sem_expr f s l; let '(v, s1) := a in
       let '(b, s2) := to_boolean s1 v in
-      if b then SOk (v, s2) else sem_expr f s2 r
+      if b then (sdo _ <- sem_expr f s2 r; SOk (v, s2)) else sem_expr f s2 r
     | JBin op l r =>
       sdo a <- sem_expr f s l; let '(x, s1) := a in
       sdo b <- sem_expr f s1 r; let '(y, s2) := b in
@@ -438,6 +440,7 @@ Fixpoint sem_expr (fuel : nat) (s : sstate) (e : jexpr) {struct fuel} : sres (jv
     | JCond c a b =>
       sdo t <- sem_expr f s c; let '(v, s1) := t in
       let '(tb, s2) := to_boolean s1 v in
+      sdo _ <- sem_expr f s2 (if tb then b else a);
       sem_expr f s2 (if tb then a else b)
     | _ => SOff
     end
